@@ -6,7 +6,8 @@ INFO = {
     'level': 'exploration',
     'rule': ('routing tables of 1-4 routes (pattern x method set x behaviour from catalogues, one slash mode per '
              'table) built by constructor list or by a generated sequence of add(entry, index) - with or without requests served '
-             'between the add() calls; every table is '
+             'between the add() calls; a route may carry a render function (its own or render_basic), which Responses and errors an '
+             'endpoint returns bypass; every table is '
              'sent the full request catalogue (12 paths x 8 methods). A request is non-trivial when >=2 routes '
              'match its path, a non-breaking error falls through, or the answer is 405; distinct_nontrivial '
              'counts distinct tables with at least one such request (request-level counts are under classes).'),
@@ -20,12 +21,25 @@ BEH = ['answer', 'answer', 'raise403', 'ret404', 'nb403', 'nbret404', 'boom', 'r
 PATHS = ['/x', '/x/', '/x/1', '/x/a', '/z', '/', '/x/a/b', '/y/1/2/', '/y/1', '//x', '/y', '/z/q/r']
 REQM = ['GET', 'HEAD', 'POST', 'PUT', 'DELETE', 'OPTIONS', 'get', 'FOO']
 ENTRY_KINDS = ['route', 'tuple', 'class']
+RENDERS = [None, None, 'fn', 'basic']     # a route may have a render function: Responses (errors included) an endpoint returns bypass it
+
+
+def _render_fn(context):
+    from clastic import Response
+    return Response('rendered %r' % (context,))
+
+
+def render_of(name):
+    if name == 'basic':
+        from clastic import render_basic
+        return render_basic
+    return _render_fn if name == 'fn' else None
 
 
 def strategy():
     from hypothesis import strategies as st
     route = st.tuples(st.sampled_from(PATTERNS), st.sampled_from(METHODS), st.sampled_from(BEH),
-                      st.sampled_from(ENTRY_KINDS), st.one_of(st.none(), st.integers(-3, 5)))
+                      st.sampled_from(ENTRY_KINDS), st.one_of(st.none(), st.integers(-3, 5)), st.sampled_from(RENDERS))
     return st.fixed_dictionaries({
         'mode': st.sampled_from(list(U.MODES)),
         'build': st.sampled_from(['list', 'add', 'add-req']),
@@ -40,14 +54,16 @@ def build(case, after_add=None):
     from clastic import route as R
     mode = case['mode']
     entries, table = [], []
-    for rid, (pattern, methods, beh, kind, index) in enumerate(case['routes']):
+    for rid, rt in enumerate(case['routes']):
+        pattern, methods, beh, kind, index = rt[:5]
+        render = render_of(rt[5] if len(rt) > 5 else None)
         ep = M.make_endpoint(rid, beh)
         if kind == 'tuple' and not methods:
-            entry = (pattern, ep)
+            entry = (pattern, ep) if render is None else (pattern, ep, render)
         elif kind == 'class' and methods and len(methods) == 1 and hasattr(R, methods[0].upper()):
-            entry = getattr(R, methods[0].upper())(pattern, ep)
+            entry = getattr(R, methods[0].upper())(pattern, ep, render)
         else:
-            entry = Route(pattern, ep, methods=methods)
+            entry = Route(pattern, ep, render, methods=methods)
         entries.append((entry, index))
         if case['build'] == 'list':
             table.append(M.Entry(rid, pattern, methods, beh, mode))
@@ -55,7 +71,8 @@ def build(case, after_add=None):
         app = Application([e for e, _ in entries], slash_mode=mode)
     else:
         app = Application(slash_mode=mode)
-        for rid, ((entry, index), (pattern, methods, beh, kind, _)) in enumerate(zip(entries, case['routes'])):
+        for rid, ((entry, index), rt) in enumerate(zip(entries, case['routes'])):
+            pattern, methods, beh, kind = rt[:4]
             e = M.Entry(rid, pattern, methods, beh, mode)
             if index is None:
                 app.add(entry)
